@@ -4,6 +4,9 @@ CFG = {
         J("scaled", "c15-dims", imports="Base Stream Inst Run RunC15", shard=32),
         J("prod", "c15-blocks", timeout=1200),
         J("prod", "c15-cli", script="tools/cli/c15_cli_job.py", needs_repo_bins=["mlar"], timeout=1200),
+        # the reading side at the command line (extract, extract with a failing output, repair) and linear extraction through the C interface
+        J("prod", "c15-xcli", script="tools/cli/c15_extract_job.py", needs_repo_bins=["mlar"], timeout=1200),
+        J("prod", "c15-capi", needs_repo_bins=["mla-bindings-c"], timeout=1200),
     ],
     "run_modules": ["RunC15"],
     "rule": "c15: production build with a counting global allocator: for each of the 4 layer combinations and each of {write to a counting sink, repair from a "
@@ -15,6 +18,10 @@ CFG = {
             "{0, 1-64, 1000-5000, 50000-300000} bytes, add_file 1 in 6, occasional flush and calls on unknown ids, files left open for the epilogue 1 in 8 — "
             "plus three fixed sequences (an end call recording a run without any append; one 4 MB append; interleaved 70/90 KB appends) and one case "
             "checking the nominal sizes of the measure against size_of of the Rust types; non-trivial = at least one byte appended; distinct = distinct call sequence. "
+            "c15-xcli: peak resident memory of the mlar process (wait4) for `extract` (linear form), `extract` whose output files fail beyond 32 KiB (RLIMIT_FSIZE, SIGXFSZ ignored), "
+            "`repair` and `repair` of the archive cut in half, on a member of 6 000 and of 60 000 (thorough 240 000) content blocks of 512 bytes under a 2.8 KB name: peak(big) <= peak(small) + 8 MiB; "
+            "c15-capi: mla_roarchive_extract of libmla.so in a child process whose callbacks read a 4 MiB / 48 MiB (thorough 160 MiB) archive from a FILE and count what the writers receive, with a seek "
+            "callback and with a NULL one (refused today), layers none and compress: VmHWM(big) <= VmHWM(small) + 8 MiB; "
             "c15-blocks (production build, counting allocator): layers {none, compress+encrypt} x {write, repair, linear extraction} of an archive holding ONE FileContent block of 4 MiB "
             "and of 48 MiB (thorough: 192 MiB) written by a single append_file_content call fed by a generator",
     "exhaustive": {"quick": True, "thorough": True},
